@@ -52,7 +52,9 @@ def generate(ctx):
                 "bias": rng.random() < 0.5, "B": rng.randint(1, 4), "seed": rng.randrange(1 << 30),
                 "stride2": rng.choice([None, [rng.randint(1, 2), rng.randint(1, 3)]]),
                 # per-synapse delays (the per-filter synaptic layout): input held constant past the longest delay
-                "delay_steps": rng.choice([None, None, None, 1, 2])}
+                "delay_steps": rng.choice([None, None, None, 1, 2]),
+                # memory layout of the assigned weight (values are what counts, not strides)
+                "weight_layout": rng.choice(["contiguous", "contiguous", "channels_last", "transposed_view", "expanded"])}
         # rectangular padding / dilation (kept only when the output stays non-empty)
         p2, d2 = [rng.randint(0, 2), rng.randint(0, 2)], [rng.randint(1, 2), rng.randint(1, 2)]
         if rng.random() < 0.5 and (h + 2 * p2[0] - d2[0] * (kh - 1) - 1) >= 0 and (w + 2 * p2[1] - d2[1] * (kw - 1) - 1) >= 0:
@@ -177,7 +179,11 @@ def _linear(ctx, desc):
         return ctx.violation(ctx.exc_signature(e, f"construct.{kind}"), f"{type(e).__name__}: {str(e)[:140]}", desc)
     nin, nout = math.prod(ish), math.prod(osh)
     if not desc.get("via_init"):
-        conn.weight = torch.randn(conn.weight.shape, generator=g, dtype=torch.float64)
+        Wv = torch.randn(conn.weight.shape, generator=g, dtype=torch.float64)
+        if desc["seed"] % 3 == 0 and Wv.ndim == 2:
+            Wv = Wv.t().contiguous().t()       # column-major storage of the same matrix
+            ctx.count("linear_weights_assigned_in_other_memory_layouts")
+        conn.weight = Wv
         if desc["bias"]:
             conn.bias = torch.randn(conn.bias.shape, generator=g, dtype=torch.float64)
     elif (conn.weight.numel() > 1 or kind != "lateral") and (
@@ -239,7 +245,22 @@ def _conv(ctx, desc):
             ctx.count("delayed_conv_cases")
     except Exception as e:  # noqa: BLE001
         return ctx.violation(ctx.exc_signature(e, "construct.conv"), f"{type(e).__name__}: {str(e)[:140]}", desc)
-    conn.weight = torch.randn(conn.weight.shape, generator=g, dtype=torch.float64)
+    Wv = torch.randn(conn.weight.shape, generator=g, dtype=torch.float64)
+    lay = desc.get("weight_layout", "contiguous")
+    if lay == "channels_last":
+        Wv = Wv.contiguous(memory_format=torch.channels_last)
+    elif lay == "transposed_view":
+        Wv = Wv.transpose(2, 3).contiguous().transpose(2, 3)          # same values and shape, kernel axes stored the other way round
+    elif lay == "expanded":
+        Wv = Wv[:, :1].expand(-1, c, -1, -1)                           # one channel's kernel shared by all channels (stride 0)
+    if lay != "contiguous":
+        ctx.count("conv_weights_assigned_in_other_memory_layouts")
+    try:
+        conn.weight = Wv
+    except Exception as e:  # noqa: BLE001
+        return ctx.violation(ctx.exc_signature(e, "assign_weight.conv"), f"{type(e).__name__}: {str(e)[:140]}", desc)
+    if not torch.equal(conn.weight.detach(), Wv):
+        return ctx.violation("conv.weight_setter_changed_values", f"weight assigned in layout {lay} reads back differently", desc)
     if desc["bias"]:
         conn.bias = torch.randn(conn.bias.shape, generator=g, dtype=torch.float64)
     x = torch.randn((B, c, h, w), generator=g, dtype=torch.float64)
